@@ -391,7 +391,8 @@ def run(ctx: Ctx, rep: Report) -> None:
         for pos, n in enumerate(o.trail):
             for val in stored_values(n.ast, "mpm"):
                 val = value_on_trail(o.trail, pos, val)
-                if isinstance(val, ast.Call) and val in creates and val.args and new_creds(val.args[0]) and norm(val.args[0]).endswith(".mpm"):
+                a0 = ctx.xexpand(conf, value_on_trail(o.trail, pos, val.args[0]), depth=2) if isinstance(val, ast.Call) and val.args else None  # through a local / a guard helper that hands back <credentials>.mpm
+                if isinstance(val, ast.Call) and val in creates and a0 is not None and new_creds(a0) and norm(a0).endswith(".mpm"):
                     hit = True
                 else:
                     hit = False  # the last store decides
